@@ -1474,19 +1474,34 @@ fn inject_define_component_option(call: &mut CallExpr, name: &'static str, value
 
     match options.map(|options| &mut *options.expr) {
         Some(Expr::Object(object)) => {
-            if !object.props.iter().any(|prop| {
-                prop.as_prop()
-                    .and_then(|prop| prop.as_key_value())
-                    .and_then(|key_value| key_value.key.as_ident())
-                    .map(|ident| ident.sym == name)
-                    .unwrap_or_default()
-            }) {
-                object
+            let is_user_defined = |prop: &PropOrSpread| match prop {
+                PropOrSpread::Prop(prop) => match &**prop {
+                    Prop::Shorthand(ident) => ident.sym == name,
+                    Prop::KeyValue(KeyValueProp { key, .. })
+                    | Prop::Getter(GetterProp { key, .. })
+                    | Prop::Method(MethodProp { key, .. }) => match key {
+                        PropName::Ident(ident) => ident.sym == name,
+                        PropName::Str(str) => str.value == name,
+                        _ => false,
+                    },
+                    _ => false,
+                },
+                PropOrSpread::Spread(..) => false,
+            };
+            if !object.props.iter().any(is_user_defined) {
+                // options supplied through a spread must win over the injected one
+                let index = object
                     .props
-                    .push(PropOrSpread::Prop(Box::new(Prop::KeyValue(KeyValueProp {
+                    .iter()
+                    .position(|prop| matches!(prop, PropOrSpread::Spread(..)))
+                    .unwrap_or(object.props.len());
+                object.props.insert(
+                    index,
+                    PropOrSpread::Prop(Box::new(Prop::KeyValue(KeyValueProp {
                         key: PropName::Ident(quote_ident!(name)),
                         value: Box::new(value),
-                    }))));
+                    }))),
+                );
             }
         }
         Some(..) => {
